@@ -120,7 +120,7 @@ def collect(prop, repo, scratch, tier, only=None):
         o.status = 'undecided'
         o.detail = 'prepared crate does not compile under Kani: ' + (b.stdout + b.stderr)[-2500:]
         return obls + [o], meta
-    timeout = int(os.environ.get('VERIF_KANI_TIMEOUT', '900'))
+    timeout = int(os.environ.get('VERIF_KANI_TIMEOUT', '480'))
     with cf.ThreadPoolExecutor(max_workers=NJOBS) as ex:
         futs = {ex.submit(run_one, prepared, h, timeout): (h, g) for h, g in todo}
         for fu in cf.as_completed(futs):
